@@ -182,10 +182,14 @@ func (ex *Exec) contractCall(st *State, in ssa.CallInstruction, callee *ssa.Func
 		}
 	}
 	k := 0
+	var pnames []string
+	if len(callee.Params) > 0 {
+		pnames = ex.u.paramNames(callee)
+	}
 	if sig.Recv() != nil {
 		n := sig.Recv().Name()
-		if len(callee.Params) > 0 {
-			n = callee.Params[0].Name()
+		if len(pnames) > 0 {
+			n = pnames[0]
 		}
 		bind(0, n)
 		bind(0, "recv")
@@ -194,8 +198,8 @@ func (ex *Exec) contractCall(st *State, in ssa.CallInstruction, callee *ssa.Func
 	}
 	for i := 0; i < sig.Params().Len(); i++ {
 		n := sig.Params().At(i).Name()
-		if len(callee.Params) > i+k {
-			n = callee.Params[i+k].Name()
+		if len(pnames) > i+k {
+			n = pnames[i+k]
 		}
 		if n != "" && n != "_" {
 			bind(i+k, n)
